@@ -1104,9 +1104,13 @@ func evalIsolated(k *isoKey) (res isoResult) {
 		}
 	}()
 	p := protect(func() {
+		// (each evaluation gets a clock / random stream of its own, as two
+		// operations of a session do)
+		verifsim.BeginClock(verifsim.ClockCfg{Seed: 0xa11, Mode: verifsim.ClockSlow})
 		sc, err := gqlparser.LoadSchema(buildSources(k.SchemaName, k.Schema, k.Cuts, k.SameName)...)
 		if k.Kind == "L" {
 			res.A = gen.RenderError(err)
+			verifsim.BeginClock(verifsim.ClockCfg{Seed: 0xb22, Mode: verifsim.ClockJumpy})
 			_, err2 := gqlparser.LoadSchema(buildSources(k.SchemaName, k.Schema, k.Cuts, k.SameName)...)
 			res.B = gen.RenderError(err2)
 			return
@@ -1118,6 +1122,7 @@ func evalIsolated(k *isoKey) (res isoResult) {
 		}
 		_, errs := validateSource(sc, &ast.Source{Name: k.DocName, Input: k.Doc})
 		res.A = gen.RenderErrors(errs)
+		verifsim.BeginClock(verifsim.ClockCfg{Seed: 0xb22, Mode: verifsim.ClockJumpy})
 		if k.DocName == "" {
 			_, errs2 := gqlparser.LoadQuery(sc, k.Doc)
 			res.B = gen.RenderErrors(errs2)
